@@ -31,7 +31,7 @@ CHUNK = 6
 FAMILY_NAMES = ["Packetizer", "Depacketizer", "RoundTrip", "PacketFIFO", "Arbiter", "Dispatcher"]
 
 
-SEEDED_SCALE = {"quick": 2, "thorough": 3}      # multiplies the run counts of the sampled families in plan()
+SEEDED_SCALE = {"quick": 2, "thorough": 1.5}      # multiplies the run counts of the sampled families in plan()
 
 def plan(tier):
     n = 300 if tier == "quick" else 6000
